@@ -161,6 +161,18 @@ fn main() {
         "c05-menu" => {
             println!("{}", e2::menu_output());
         }
+        "lint-seq" => {
+            // debug aid: lint the given texts in order on ONE warm all-default LintGroup
+            use harper_core::linting::Linter;
+            let dict = e2::product_dict();
+            let mut g = harper_core::linting::LintGroup::new_curated(dict.clone(), harper_core::Dialect::American);
+            for t in &args[2..] {
+                let t = t.replace("\\n", "\n");
+                let doc = harper_core::Document::new(&t, &harper_core::parsers::PlainEnglish, &*dict);
+                let l = g.lint(&doc);
+                println!("{:?} -> {:?}", t, l.iter().map(|x| (x.span.start, x.span.end, x.message.clone())).collect::<Vec<_>>());
+            }
+        }
         "sizes" => {
             let job = args.get(2).cloned().unwrap_or_default();
             let tier = args.get(3).and_then(|t| Tier::parse(t)).unwrap_or(Tier::Quick);
